@@ -115,6 +115,9 @@ EXPORT errno_t _wcsnset_s_chk(wchar_t *restrict dest, rsize_t dmax, wchar_t valu
         dest++;
     }
 #ifdef SAFECLIB_STR_NULL_SLACK
+    /* the rest of a longer string stays; the slack starts behind its NUL */
+    while ((rsize_t)(dest - orig_dest) < dmax && *dest)
+        dest++;
     /* null slack to clear any data */
     if ((rsize_t)(dest - orig_dest) < dmax && !*dest)
         memset(dest, 0, (dmax - (dest - orig_dest)) * sizeof(wchar_t));
